@@ -7,6 +7,7 @@ import (
 	"strconv"
 	"testing"
 
+	"github.com/issue9/mux/v9"
 	"pgregory.net/rapid"
 
 	"verif/harness/ref"
@@ -20,6 +21,8 @@ type HOp struct {
 }
 
 type Case struct {
+	// Recover: the router has WithStatusRecovery(500) and the script may end in a panic
+	Recover bool         `json:"recover"`
 	Trace   bool         `json:"trace"`
 	Script  []rig.Action `json:"script"`
 	Path    string       `json:"path"` // pattern of the scripted GET route
@@ -55,6 +58,12 @@ func genScript(t *rapid.T) []rig.Action {
 
 func gen(t *rapid.T) Case {
 	c := Case{Trace: rapid.IntRange(0, 2).Draw(t, "trace") == 0, Script: genScript(t), Path: rapid.SampledFrom(patterns).Draw(t, "scriptPattern")}
+	if rapid.IntRange(0, 3).Draw(t, "recover") == 0 {
+		c.Recover = true
+		if rapid.Bool().Draw(t, "scriptPanics") {
+			c.Script = append(c.Script, rig.Action{Op: "panic", V: "x"})
+		}
+	}
 	reserved := []string{"HEAD", "OPTIONS", "BOGUS", "get", "head", "", "Options"}
 	if c.Trace {
 		reserved = append(reserved, "TRACE")
@@ -119,7 +128,12 @@ func check(c Case, st *rig.Stats) error {
 
 	// Part A: GET vs HEAD on a scripted handler
 	{
-		r := env.NewRouter("r", rig.Opts{Trace: c.Trace})
+		var extra []mux.Option
+		if c.Recover {
+			extra = append(extra, mux.WithStatusRecovery(500))
+			classes = append(classes, "router-with-status-recovery")
+		}
+		r := env.NewRouter("r", rig.Opts{Trace: c.Trace, Extra: extra})
 		h := env.NewH(c.Script...)
 		if len(c.Script) == 0 {
 			h.Script = []rig.Action{} // an empty script writes nothing at all
@@ -175,7 +189,11 @@ func check(c Case, st *rig.Stats) error {
 		if statusAt >= 0 && firstWrite >= 0 && statusAt > firstWrite {
 			classes = append(classes, "WriteHeader-after-body")
 		}
-		if writes > 0 && statusAt < 0 {
+		panics := len(c.Script) > 0 && c.Script[len(c.Script)-1].Op == "panic"
+		if panics {
+			classes = append(classes, "handler-panics-and-is-recovered")
+		}
+		if writes > 0 && statusAt < 0 && !panics { // a recovered panic makes the recovery code send the header itself
 			classes = append(classes, "body-without-WriteHeader")
 			if cl := hd.Header.Get("Content-Length"); cl != strconv.Itoa(total) {
 				return rig.Violf("head-content-length", "HEAD Content-Length=%q, the handler wrote %d bytes in %d writes; script %v", cl, total, writes, c.Script)
